@@ -287,6 +287,8 @@ def build_harness():
     return ok and not bad, "\n".join(outs), time.time() - t0
 
 def oracle_bin(profile):
+    # development aid (tools/coverage.sh): an instrumented build of the oracle can stand in for the debug profile
+    if profile == "debug" and os.environ.get("RTA_ORACLE_DEBUG_BIN"): return os.environ["RTA_ORACLE_DEBUG_BIN"]
     return os.path.join(HARNESS, "target", profile, "rta_oracle")
 
 # ----------------------------------------------------------------------------- running the oracle
